@@ -165,6 +165,19 @@ def run(ctx):
                 if a[0] != b[0]:
                     ctx.violation(what="copy has another value type", type="Vector", how=how, values=vobs(v)[0], probe=repr(probe),
                                   observed=b[0], required=a[0])
+    # values whose extended properties were edited after construction: the units entry removed, replaced, other keys added
+    def edited(obj, keys):
+        out = []
+        for k in keys:
+            a = copy.deepcopy(obj); a.extended_properties.pop(k, None); out.append(a)
+            b = copy.deepcopy(obj); b.extended_properties[k] = "kV"; b.extended_properties["extra"] = 3; out.append(b)
+        return out
+    for sobj in edited(Scalar(1.5, "V"), ["NI_UnitDescription"]) + edited(Scalar("s"), ["NI_UnitDescription"]):
+        check_value(ctx, "Scalar(edited properties)", sobj, lambda s: (type(s.value).__name__, s.value, s.units, list(s.extended_properties.items())))
+    for vobj in edited(Vector([1, 2], "V"), ["NI_UnitDescription"]):
+        check_value(ctx, "Vector(edited properties)", vobj, vobs, vmut)
+    for xobj in edited(XYData(np.array([1.0, 2.0]), np.array([3.0, 4.0]), x_units="s", y_units="V"), ["NI_UnitDescription_X", "NI_UnitDescription_Y"]):
+        check_value(ctx, "XYData(edited properties)", xobj, lambda c: (c.x_data.tolist(), c.y_data.tolist(), str(c.dtype), c.x_units, c.y_units, list(c.extended_properties.items())))
     for xd in (np.int32, np.float64):
         x = XYData(np.array([1, 2, 3], xd), np.array([4, 5, 6], xd), x_units="s", y_units="V")
 
